@@ -261,6 +261,9 @@ fn build(tier: Tier) -> Vec<Scenario> {
             }
         }
     }
+    if tier == Tier::Quick {
+        crate::props::common::deepen(&mut out, &|n| n.contains("/p2/") && n.contains("/n2/"));
+    }
     out
 }
 
